@@ -251,7 +251,8 @@ def decorate(ctx, geo, desc):
     if rng.random() < 0.5:
         geo.permeability_angle = rng.choice([0.0, 30.0, 44.0, 46.0, 90.0, -17.0])
     if rng.random() < 0.2:
-        geo.gdcx, geo.gdcy = rng.choice([0.0, 0.1, -0.2]), rng.choice([0.0, 0.05, 0.3])
+        # a direction without tilt is spelled 0.0 or left out (None, which is also what a blank header field reads as)
+        geo.gdcx, geo.gdcy = rng.choice([0.0, None, 0.1, -0.2]), rng.choice([0.0, None, 0.05, 0.3])
     if rng.random() < 0.3:
         geo.atmosphere_volume, geo.atmosphere_connection = rng.choice([1e20, 1e25, 1.0]), rng.choice([1e-6, 0.5, 10.0])
     desc['header'] = [geo.permeability_angle, geo.gdcx, geo.gdcy, geo.atmosphere_volume, geo.atmosphere_connection]
